@@ -468,6 +468,8 @@ def build_fixed(g):
     A(tup([u8, ZERO])); A(vec(tup([u8, ZERO]))); A(option(ZERO)); A(vec(bvs[0]))
     # a zero-length fixed item before / between variable items of one builder-decoded container
     A(tup([ZERO, vec(u8)])); A(tup([vec(u16), ZERO, vec(u16), u32])); A(tup([u8, ZERO, vec(u8), ZERO, vec(vec(u8))])); A(bmap(ZERO, vec(u8)))
+    # maps whose entries are fixed-size with exactly one zero-length side
+    A(bmap(u16, ZERO)); A(bmap(ZERO, u16)); A(bmap(u8, tup([ZERO, ZERO])))
     # tuples of every arity with fixed / variable fields in first / middle / last position
     v8 = vec(u8)
     for n in range(2, 13):
